@@ -114,7 +114,70 @@ def build_ops(dadi):
         b.add_migration(demes=['A', 'B'], rate=1e-3)
         g = b.resolve()
         return dadi.Spectrum.from_demes(g, sampled_demes=['A', 'B'], sample_sizes=[4, 4], pts=[12, 14, 16])
+    def data_dict(r, pops, nsnp, ncalled):
+        dd = {}
+        for k in range(nsnp):
+            calls = {}
+            for p in pops:
+                n = int(r.choice(ncalled)); a = int(r.integers(0, n + 1))
+                calls[p] = (n - a, a)
+            dd['c1_%d' % k] = dict(segregating=('A', 'T'), calls=calls, outgroup_allele=str(r.choice(['A', 'T', '-'])), context='-A-', outgroup_context='-A-')
+        return dd
+    @op
+    def data_dict_1pop(r):
+        # many SNPs share a (called, derived) configuration: exercises repeated use of one projection-cache entry
+        dd = data_dict(r, ['P'], 60, [8, 10])
+        return dadi.Spectrum.from_data_dict(dd, ['P'], [int(r.choice([4, 6]))], polarized=bool(r.integers(2)))
+    @op
+    def data_dict_2pop(r):
+        dd = data_dict(r, ['P', 'Q'], 40, [6, 8])
+        return dadi.Spectrum.from_data_dict(dd, ['P', 'Q'], [4, 4])
+    @op
+    def project_after_counts(r):
+        fs = fs_rand(r, (int(r.choice([9, 11])),)); return fs.project([int(r.choice([4, 6]))])
+    @op
+    def stats_unmasked(r):
+        fs = dadi.Spectrum(r.uniform(0.1, 5, 9), mask_corners=False)
+        out = [fs.S(), fs.Watterson_theta(), fs.pi(), fs.Tajima_D()]
+        return np.concatenate([np.array(out, dtype=float), np.ma.filled(fs, -1.0), np.ma.getmaskarray(fs).astype(float)])
+    @op
+    def scramble(r):
+        sh = [(4, 8), (8, 4), (5, 7), (3, 4, 7)][int(r.integers(4))]
+        return fs_rand(r, sh).scramble_pop_ids()
     return ops
+
+def cache_soundness(dadi):
+    """every entry of every memo table must equal a fresh recomputation from its key (the invariant `Memo.SoundFor`)"""
+    import numpy as np
+    from math import comb, lgamma
+    bad = []
+    N = dadi.Numerics
+    for (m, n, h), v in list(N._projection_cache.items()):
+        try:
+            m_, n_, h_ = int(m), int(n), int(h)
+        except Exception:
+            continue
+        if n_ < m_:
+            want = np.zeros(m_ + 1)
+        else:
+            want = np.array([comb(m_, j) * comb(n_ - m_, h_ - j) / comb(n_, h_) if 0 <= h_ - j <= n_ - m_ else 0.0 for j in range(m_ + 1)])
+        if np.shape(v) != want.shape or not np.allclose(v, want, rtol=1e-9, atol=1e-300):
+            bad.append('_projection_cache%r' % ((m_, n_, h_),))
+    for k, v in list(N._multinomln_cache.items()):
+        want = lgamma(sum(k) + 1) - sum(lgamma(x + 1) for x in k)
+        if not np.isclose(v, want, rtol=1e-10, atol=1e-12): bad.append('_multinomln_cache%r' % (k,))
+    for k, v in list(N._part_cache.items()):
+        x, n, lo, hi = k
+        want = list(N.part(x, n, lo, hi))
+        if v != want: bad.append('_part_cache%r' % (k,))
+    S = dadi.Spectrum_mod
+    from scipy.special import betainc
+    for (nx, xx), (d1, d2) in list(S._dbeta_cache.items()):
+        x = np.minimum(np.maximum(np.array(xx), 0), 1.0)
+        for ii in (0, nx // 2, nx):
+            b = betainc(ii + 1, nx - ii + 1, x)
+            if not np.allclose(d1[ii], b[1:] - b[:-1], rtol=1e-10, atol=1e-300): bad.append('_dbeta_cache(nx=%d)' % nx); break
+    return bad
 
 def digest(res):
     import numpy as np
@@ -144,6 +207,8 @@ def main():
             print(i, digest(r), flush=True)
         except Exception as e:
             print(i, 'EXC:%s:%s' % (type(e).__name__, str(e)[:80].replace('\n', ' ')), flush=True)
+    bad = cache_soundness(dadi)
+    print('CACHE', 'ok' if not bad else 'BAD:' + ';'.join(bad[:5]), flush=True)
 
 if __name__ == '__main__':
     main()
